@@ -67,10 +67,73 @@ def model_compare(cases):
     return bad, None
 
 
+def probe_interruptions(ctx):
+    """histories the sequential grid cannot express: the physical-core probe of the FIRST call is still running when another thread
+    calls, or is interrupted (KeyboardInterrupt, handled by the application); every completed call must return the formula's value"""
+    import sys, threading, types, warnings
+    if sys.path[0] != vlib.REPO:
+        sys.path.insert(0, vlib.REPO)
+    import loky.backend.context as C
+    fake_os = types.SimpleNamespace(cpu_count=lambda: 8, sched_getaffinity=lambda pid: set(range(8)), environ={}, path=types.SimpleNamespace(exists=lambda p: False),
+                                    name="posix", getpid=lambda: 1)
+    saved = (C.os, C._count_physical_cores_linux, C.physical_cores_cache)
+    bad = []
+    try:
+        C.os = fake_os
+        # (a) interrupted probe
+        C.physical_cores_cache = None
+        state = {"n": 0}
+        def probe_a():
+            state["n"] += 1
+            if state["n"] == 1:
+                raise KeyboardInterrupt()
+            return 4
+        C._count_physical_cores_linux = probe_a
+        with warnings.catch_warnings(record=True):
+            warnings.simplefilter("always")
+            try:
+                C.cpu_count(only_physical_cores=True)
+                first = "returned"
+            except KeyboardInterrupt:
+                first = "KeyboardInterrupt"
+            later = [C.cpu_count(only_physical_cores=True) for _ in range(2)]
+        if later != [4, 4]:
+            bad.append({"history": "first probe interrupted by KeyboardInterrupt (handled), then two more calls; 8 logical / 4 physical cores, no other limit",
+                        "first_call": first, "later_calls_returned": later, "expected": [4, 4]})
+        # (b) a second caller while the first probe is still running
+        C.physical_cores_cache = None
+        started, release = threading.Event(), threading.Event()
+        def probe_b():
+            if threading.current_thread().name == "first-caller":
+                started.set()
+                release.wait(10)
+            return 4
+        C._count_physical_cores_linux = probe_b
+        res = {}
+        t = threading.Thread(target=lambda: res.__setitem__("a", C.cpu_count(only_physical_cores=True)), name="first-caller")
+        with warnings.catch_warnings(record=True):
+            warnings.simplefilter("always")
+            t.start()
+            started.wait(10)
+            res["b"] = C.cpu_count(only_physical_cores=True)
+            release.set()
+            t.join(10)
+        if res.get("a") != 4 or res.get("b") != 4:
+            bad.append({"history": "a second thread calls cpu_count(only_physical_cores=True) while the first caller's probe is still running",
+                        "returned": res, "expected": {"a": 4, "b": 4}})
+    finally:
+        C.os, C._count_physical_cores_linux, C.physical_cores_cache = saved
+    return bad
+
+
 def run(ctx):
     n = 5000 if ctx.tier == "quick" else 200000
     pr = vlib.prove(ctx, PROP_FILE, ["Cpu"])
     cases, fails, undef, kinds, distinct = explore(ctx, n)
+    pbad = probe_interruptions(ctx)
+    if pbad:
+        rp = vlib.write_replay(ctx, "probe", {"kind": "cpu_count(only_physical_cores=True) returns another value than the formula after an interrupted / concurrent probe", "cases": pbad})
+        ctx.violations.append((f"physical-core probe: {pbad[0]['history'][:110]}: got {pbad[0].get('later_calls_returned', pbad[0].get('returned'))}", rp, False))
     disagreements = 0
     if fails:
         cfg, calls, flag, cache, o, exp = min(fails, key=lambda f: len(json.dumps(f[0], default=str)))
